@@ -80,9 +80,8 @@ package generator
 //@ func ProtocolLatch.Lock
 //@   property C45
 //@   opt lock-no-havoc 1
-//@   requires pl.counter < 18446744073709551615
 //@   modifies pl.counter
-//@   ensures [lock-counts-up] pl.counter == old(pl.counter) + 1
+//@   ensures [lock-counts-up] pl.counter == wrap_u64(old(pl.counter) + 1)
 
 //@ func ProtocolLatch.Unlock
 //@   property C45
